@@ -22,14 +22,15 @@ def Good (s : S) : Prop :=
   (s.st = 2 → s.pollerHolds = true) ∧
   (s.pc = .allocated → s.st = 0) ∧ (s.pc = .live → s.st ≥ 1) ∧ (s.pc = .detached → s.st ≥ 1) ∧
   (s.pc = .unusedDone → s.st = 0) ∧ (s.pc = .resetDone → s.st = 0 ∧ s.cbGen = none) ∧
-  (s.st ≥ 1 → s.loc = .owned ∧ s.cbGen = some s.gen) ∧ s.st ≤ 2
+  (s.st ≥ 1 → s.loc = .owned ∧ s.cbGen = some s.gen) ∧ s.st ≤ 2 ∧
+  (s.loc = .owned → s.fdOpen = true)
 
 theorem good_init : Good init := by
   simp [Good, init]
 
 /-- one step preserves the invariant, provided stale Release calls carry the IsActive guard. -/
 theorem good_step (s s' : S) (a : Act) (h : Good s) (hg : guardedAct a = true) (hs : step s a = some s') : Good s' := by
-  obtain ⟨loc, st, gen, pc, cbGen, registered, inBatch, pending, pollerHolds, staleHolds, bad⟩ := s
+  obtain ⟨loc, st, gen, pc, cbGen, registered, inBatch, pending, pollerHolds, staleHolds, bad, fdOpen⟩ := s
   cases a <;> simp only [step, guardedAct] at hs hg <;> (repeat' split at hs) <;> (try cases hs) <;>
     (try (simp only [Good] at *; grind))
 
@@ -65,6 +66,22 @@ theorem C10_single_owner (acts : List Act) (s : S) (hall : acts.all guardedAct =
   by_cases h : s.pending = none
   · exact h
   · exact absurd hf (hp h)
+
+/-- **C10_fd_live_during_dispatch** (descriptor reuse): whenever the poller holds the slot's token (it is running the
+callbacks and the `readv`/`sendmsg` on `operator.FD`), and whenever the slot is in use at all, the descriptor it works on is
+the current owner's and is still open – the number cannot have been handed to another connection by the kernel.  The close
+finalizer closes the descriptor only after `operator.Free()` has returned. -/
+theorem C10_fd_live_during_dispatch (acts : List Act) (s : S) (hall : acts.all guardedAct = true) (hr : run init acts = some s) :
+    (s.pollerHolds = true → s.fdOpen = true ∧ s.cbGen = some s.gen) ∧ (s.st ≥ 1 → s.fdOpen = true) := by
+  have hg := good_run acts init s good_init hall hr
+  simp only [Good] at hg
+  grind
+
+/-- non-vacuity: the close of the owner overlaps a dispatch in progress; the descriptor is closed after the dispatch ended -/
+example : (run init [.alloc, .register, .fetch, .doEv, .detach, .doneEv, .unused, .reset, .freeable, .closeFd 1, .endBatch]).map
+    (fun s => (s.fdOpen, s.bad)) = some (false, false) := by decide
+/-- … and cannot be closed while the dispatch is in progress (`unused()` spins, the finalizer has not reached `netFD.Close`) -/
+example : run init [.alloc, .register, .fetch, .doEv, .detach, .closeFd 1] = none := by decide
 
 /-- non-vacuity: a full life cycle with a close placed between fetch and dispatch, then reuse by a second owner -/
 example : (run init [.alloc, .register, .fetch, .detach, .unused, .reset, .freeable, .doEv, .endBatch,
